@@ -1,6 +1,7 @@
 package engine
 
 import (
+	"os"
 	"fmt"
 	"go/types"
 
@@ -88,7 +89,7 @@ func (u *Unit) mapRead(st *State, pc *Term, mt *types.Map, m, k *Term) (val *SV,
 	val = u.unflatten(mt.Elem(), leaves, &p)
 	// type invariants of stored values
 	u.assumeLeafInvs(val, mt.Elem(), st, c.And(pc, found))
-	if _, ok := mt.Key().Underlying().(*types.Pointer); ok && ks == SRef {
+	if _, ok := mt.Key().Underlying().(*types.Pointer); ok && ks == SRef && os.Getenv("GOVC_NO_KEYINV") == "" {
 		// a key held by a map is nil or a live object of the key type
 		u.assumeTypeInv(k, mt.Key(), st, c.And(pc, found))
 	}
